@@ -1025,10 +1025,12 @@ class Executor:
             lastf = [p for p in dproj if p[0] == "field"]
             dest_ty = lastf[-1][2] if lastf and dproj[-1][0] == "field" else "?"
         cname = callee.strip()
+        # the same trait is printed with or without its path depending on the imports of the calling module
+        cshort = re.sub(r"\b(?:std|core)::ops::(Index|IndexMut|Deref|DerefMut)\b", r"\1", cname)
         outcome = None
         handled = False
         for rx, h in self.models:
-            if re.search(rx, cname):
+            if re.search(rx, cname) or (cshort != cname and re.search(rx, cshort)):
                 outcome = h(self, st, cname, args, dest_ty, fn)
                 if outcome is not NotImplemented:
                     handled = True
